@@ -133,6 +133,9 @@ func (g *Gen) swarmEnv(mode string) wire.Env {
 			env.History = append(env.History, h2)
 		}
 	}
+	if len(env.History) == 0 && g.P(30) {
+		env.NoDefaultHistory = true // the application has unbound every history source
+	}
 	if g.P(40) {
 		env.Comp = g.compSpec(g.Range(1, 12), false)
 	}
